@@ -190,7 +190,7 @@ func (e *Exec) callFn(th *Thread, caller *Frame, site ssa.Instruction, fn *ssa.F
 		if fn.Pkg == nil && fn.Synthetic != "" {
 			// wrapper not built?
 		}
-		panic(unsupported("external function without intrinsic: " + name))
+		panic(unsupported("external function without intrinsic: " + name + " stack=" + e.stack(caller)))
 	}
 	e.funcsSeen[fn]++
 	fr := e.newFrame(th, fn, args, env, caller)
